@@ -115,7 +115,7 @@ func listsOver(coords []int, maxLen int, f func(starts, ends []int) bool) {
 
 func runC16(r *core.Run) {
 	firstCallClause(r, "regions")
-	N := core.Pick(r, 3, 5)
+	N := core.Pick(r, 3, 6)
 	r.Bound("lists", fmt.Sprintf("all ordered lists of 0..%d intervals with start,end in {-1,0,1,2}; all lists of 0..2 intervals over {MinInt,-1,0,1,MaxInt}; every position = each coordinate, +-1, 0, MinInt, MaxInt", N))
 	checkList := func(c c16List) core.Outcome {
 		starts, ends := slices.Clone(c.Starts), slices.Clone(c.Ends)
@@ -206,7 +206,7 @@ func runC16(r *core.Run) {
 			return core.OK(fmt.Sprint("panic=", p != ""), true)
 		})
 
-	depth := core.Pick(r, 3, 4)
+	depth := core.Pick(r, 3, 5)
 	ops := []string{"at:-1", "at:0", "at:1", "at:2", "at:3", "mutate-results", "mutate-inputs"}
 	r.Bound("histories", fmt.Sprintf("every operation sequence of length 1..%d over %v on every index of 0..2 intervals over {0,1,2}", depth, ops))
 	core.Clause(r, "read-only-histories", core.Opts{Rule: "every sequence of operations {At(i), overwrite+append to every slice returned so far, overwrite the slices passed to NewIndex} up to the depth on every small index; after every operation the complete answer vector equals the brute-force answers for the ORIGINAL intervals and earlier results are unchanged by later At calls; non-trivial = sequence contains a mutation followed by a query"},
